@@ -31,7 +31,10 @@ ALPHABET = ['Drop', 'Dup', 'Nil', 'Add',
             'GetModSym:1', 'GetModSym:2', 'SetModSym:1', 'SetModSym:2',
             'GetPropByName:0', 'PropertySlot', 'GetSuper:0', 'Call:0', 'Call:1',
             'Jump:0', 'Loop:0', 'Return', 'Raise', 'Label:0', 'Label:1', 'ArgumentDelimiter',
-            'JumpIfFalse:1', 'SetPropByName:0', 'GetProp:0']
+            'JumpIfFalse:1', 'SetPropByName:0', 'GetProp:0',
+            # 16-bit operands that alias a small one modulo 256 (a rule comparing truncated operands merges them)
+            'GetModSym:257', 'SetModSym:257', 'GetPropByName:256', 'SetPropByName:256', 'GetSuper:256', 'Label:256',
+            'Jump:256']
 
 
 def bkey(ins):
@@ -151,7 +154,7 @@ def main():
             chk.distinct.add(('w', i))
     # ---- (3) long runs -----------------------------------------------------
     longs = []
-    for n in (2, 3, 17, 128, 254, 255):
+    for n in (2, 3, 17, 128, 254, 255, 256, 257, 300, 511, 600):
         longs.append(tuple(['Nil'] + ['Drop'] * n + ['Return']))
     for load in ('GetLocal:1', 'GetBox:1', 'GetCapture:1', 'GetModSym:1'):
         for n in (2, 3, 50, 300):
